@@ -2,6 +2,7 @@ import GeomV.C09.Num
 import GeomV.C09.Tables
 import GeomV.C09.Gen.Tables
 import GeomV.C09.Gen.GoCommon
+import GeomV.C09.Gen.GoProj
 /-!
 Model of the Go port (`/repo/proj`), function by function, generic over the number class.
 
@@ -9,9 +10,14 @@ Model of the Go port (`/repo/proj`), function by function, generic over the numb
   they are `Gen.Go.*`, regenerated from the current source on every run (tie T1).
 * The tables are `Gen.go*`, regenerated from `EllipsoidDef.go`, `DatumDef.go`,
   `PrimeMeridian.go`, `units.go`.
-* Hand models (tied by the correspondence run): `projString.go`, `deriveConstants.go`,
-  `datum.go`, `datum_transform.go`, the closure of `transform.go` (`NewTransform`), and the
-  constructors `Merc, LCC, AEA, EqdC, TMerc, UTM, Krovak, LongLat`.
+* The forward/inverse CLOSURES of `Merc, LCC, AEA, EqdC`, the forward closures of `TMerc` and
+  `Krovak`, `aeaPhi1z`, and `geodetic_to_geocentric`, `geocentric_to_wgs84`,
+  `geocentric_from_wgs84` of `datum.go` are `Gen.Go.*` as well (`Gen/GoProj.lean`, regenerated);
+  the functions below only pass them what the closure reads from `*SR` and from its constructor.
+* Hand models (tied by the correspondence run): `projString.go`, `deriveConstants.go`, `getDatum`,
+  `compare_datums`, `geocentric_to_geodetic` (its `for {}` loop), `datum_transform.go`, the closure of
+  `transform.go`, the constructor bodies (`init`), and the inverse closures of `TMerc` and `Krovak`
+  (loops with an integer counter are outside the translator's subset).
 
 Go specifics that are kept: a float field that was never set is `NaN` (`NewSR`): `none` here, and
 `math.IsNaN(f)` is `gNaN`; errors are values (`Except String`); the two-hop route through WGS84
@@ -198,23 +204,12 @@ deriving Inhabited
 
 def halfPi : α := c_halfPi
 
+/-- `geodetic_to_geocentric` (regenerated) -/
 def geodetic_to_geocentric (this : Datum α) (Longitude Latitude Height : α) : Except String (P3 α) :=
-  let r : Except String α :=
-    if lt Latitude (-halfPi) && gt Latitude (-1.001 * halfPi) then .ok (-halfPi)
-    else if gt Latitude halfPi && lt Latitude (1.001 * halfPi) then .ok halfPi
-    else if lt Latitude (-halfPi) || gt Latitude halfPi then .error "proj.datum.geodetic_to_geocentric:lat out of range"
-    else .ok Latitude
-  match r with
+  match datum_geodetic_to_geocentric (this_a := this.a) (this_es := this.es) Longitude Latitude Height with
+  | .ok (X, Y, Z) => .ok { x := X, y := Y, z := Z }
   | .error e => .error e
-  | .ok Latitude =>
-    let Longitude := if gt Longitude pi then Longitude - (2 * pi) else Longitude
-    let Sin_Lat := sin Latitude
-    let Cos_Lat := cos Latitude
-    let Sin2_Lat := Sin_Lat * Sin_Lat
-    let Rn := this.a / (sqrt (1.0e0 - this.es * Sin2_Lat))
-    .ok { x := (Rn + Height) * Cos_Lat * cos Longitude,
-          y := (Rn + Height) * Cos_Lat * sin Longitude,
-          z := ((Rn * (1 - this.es)) + Height) * Sin_Lat }
+
 
 structure GState (α : Type) where
   CPHI : α
@@ -251,40 +246,21 @@ def geocentric_to_geodetic (this : Datum α) (X Y Z : α) : P3 α :=
     let s := geodeticLoop this.a this.es Pd Z ST CT 30 CPHI0 SPHI0
     { x := Longitude, y := atan (s.SPHI / abs s.CPHI), z := s.Height }
 
+/-- `geocentric_to_wgs84` (regenerated) -/
 def geocentric_to_wgs84 (this : Datum α) (p : P3 α) : P3 α :=
-  if this.datum_type == pjd3Param then
-    { x := p.x + dpar this 0, y := p.y + dpar this 1, z := p.z + dpar this 2 }
-  else if this.datum_type == pjd7Param then
-    let Dx_BF := dpar this 0
-    let Dy_BF := dpar this 1
-    let Dz_BF := dpar this 2
-    let Rx_BF := dpar this 3
-    let Ry_BF := dpar this 4
-    let Rz_BF := dpar this 5
-    let M_BF := dpar this 6
-    { x := M_BF * (p.x - Rz_BF * p.y + Ry_BF * p.z) + Dx_BF,
-      y := M_BF * (Rz_BF * p.x + p.y - Rx_BF * p.z) + Dy_BF,
-      z := M_BF * (-Ry_BF * p.x + Rx_BF * p.y + p.z) + Dz_BF }
-  else p
+  let r := datum_geocentric_to_wgs84 (this_datum_params_0 := dpar this 0) (this_datum_params_1 := dpar this 1)
+    (this_datum_params_2 := dpar this 2) (this_datum_params_3 := dpar this 3) (this_datum_params_4 := dpar this 4)
+    (this_datum_params_5 := dpar this 5) (this_datum_params_6 := dpar this 6) (this_datum_type := this.datum_type) p.x p.y p.z
+  { x := r.1, y := r.2.1, z := r.2.2 }
 
+
+/-- `geocentric_from_wgs84` (regenerated) -/
 def geocentric_from_wgs84 (this : Datum α) (p : P3 α) : P3 α :=
-  if this.datum_type == pjd3Param then
-    { x := p.x - dpar this 0, y := p.y - dpar this 1, z := p.z - dpar this 2 }
-  else if this.datum_type == pjd7Param then
-    let Dx_BF := dpar this 0
-    let Dy_BF := dpar this 1
-    let Dz_BF := dpar this 2
-    let Rx_BF := dpar this 3
-    let Ry_BF := dpar this 4
-    let Rz_BF := dpar this 5
-    let M_BF := dpar this 6
-    let x_tmp := (p.x - Dx_BF) / M_BF
-    let y_tmp := (p.y - Dy_BF) / M_BF
-    let z_tmp := (p.z - Dz_BF) / M_BF
-    { x := x_tmp + Rz_BF * y_tmp - Ry_BF * z_tmp,
-      y := -Rz_BF * x_tmp + y_tmp + Rx_BF * z_tmp,
-      z := Ry_BF * x_tmp - Rx_BF * y_tmp + z_tmp }
-  else p
+  let r := datum_geocentric_from_wgs84 (this_datum_params_0 := dpar this 0) (this_datum_params_1 := dpar this 1)
+    (this_datum_params_2 := dpar this 2) (this_datum_params_3 := dpar this 3) (this_datum_params_4 := dpar this 4)
+    (this_datum_params_5 := dpar this 5) (this_datum_params_6 := dpar this 6) (this_datum_type := this.datum_type) p.x p.y p.z
+  { x := r.1, y := r.2.1, z := r.2.2 }
+
 
 /-! ## datum_transform.go -/
 
@@ -419,27 +395,17 @@ def mercInit (this : SR α) : SR α × Consts α :=
     else gnum this.k0
   (this, { (Consts.nanC : Consts α) with k0 := K0 })
 
+/-- forward closure of `Merc`: the REGENERATED `Gen.Go.Merc_forward` applied to what the closure reads -/
 def mercFwd (this : SR α) (c : Consts α) (lon lat : α) : Except String (α × α) :=
-  let r2d : α := c_r2d
-  if isNaN lat || isNaN lon || gt (lat * r2d) 90 || lt (lat * r2d) (-90) then
-    .error "in proj.Merc forward: invalid longitude or latitude"
-  else if le (abs (abs lat - halfPi)) c_epsln then .error "in proj.Merc forward, abs(lat)==pi/2"
-  else if this.sphere then
-    .ok (gnum this.x0 + aS this * c.k0 * adjust_lon (lon - gnum this.long0),
-         gnum this.y0 + aS this * c.k0 * log (tan (c_fortPi + 0.5 * lat)))
-  else
-    let sinphi := sin lat
-    let ts := tsfnz this.e lat sinphi
-    .ok (gnum this.x0 + aS this * c.k0 * adjust_lon (lon - gnum this.long0),
-         gnum this.y0 - aS this * c.k0 * log ts)
+  Merc_forward (K0 := c.k0) (this_A := aS this) (this_E := this.e) (this_Long0 := gnum this.long0)
+    (this_X0 := gnum this.x0) (this_Y0 := gnum this.y0) (this_sphere := this.sphere) lon lat
 
-def mercInv (this : SR α) (c : Consts α) (x y : α) : Except String (α × α) := do
-  let x := x - gnum this.x0
-  let y := y - gnum this.y0
-  let lat ←
-    if this.sphere then pure (halfPi - 2 * atan (exp (-y / (aS this * c.k0))))
-    else phi2z this.e (exp (-y / (aS this * c.k0)))
-  pure (adjust_lon (gnum this.long0 + x / (aS this * c.k0)), lat)
+
+/-- inverse closure of `Merc` (regenerated) -/
+def mercInv (this : SR α) (c : Consts α) (x y : α) : Except String (α × α) :=
+  Merc_inverse (K0 := c.k0) (this_A := aS this) (this_E := this.e) (this_Long0 := gnum this.long0)
+    (this_X0 := gnum this.x0) (this_Y0 := gnum this.y0) (this_sphere := this.sphere) x y
+
 
 /-- `LCC` -/
 def lccInit (this : SR α) : Except String (SR α × Consts α) :=
@@ -469,35 +435,17 @@ def lccInit (this : SR α) : Except String (SR α × Consts α) :=
     let RH := aS this * F0 * pow ts0 NS
     .ok (this, { (Consts.nanC : Consts α) with e := E, ns := NS, f0 := F0, rh := RH })
 
+/-- forward closure of `LCC` (regenerated) -/
 def lccFwd (this : SR α) (c : Consts α) (lon lat : α) : Except String (α × α) :=
-  let lat := if le (abs (2 * abs lat - pi)) c_epsln then sign lat * (halfPi - 2 * c_epsln) else lat
-  let con := abs (abs lat - halfPi)
-  let r : Except String α :=
-    if gt con c_epsln then
-      let ts := tsfnz c.e lat (sin lat)
-      .ok (aS this * c.f0 * pow ts c.ns)
-    else
-      let con := lat * c.ns
-      if le con 0 then .error "proj.LCC: con <= 0" else .ok 0
-  match r with
-  | .error e => .error e
-  | .ok rh1 =>
-    let theta := c.ns * adjust_lon (lon - gnum this.long0)
-    .ok (gnum this.k0 * (rh1 * sin theta) + gnum this.x0, gnum this.k0 * (c.rh - rh1 * cos theta) + gnum this.y0)
+  LCC_forward (E := c.e) (F0 := c.f0) (NS := c.ns) (RH := c.rh) (this_A := aS this) (this_K0 := gnum this.k0)
+    (this_Long0 := gnum this.long0) (this_X0 := gnum this.x0) (this_Y0 := gnum this.y0) lon lat
 
-def lccInv (this : SR α) (c : Consts α) (x y : α) : Except String (α × α) := do
-  let x := (x - gnum this.x0) / gnum this.k0
-  let y := (c.rh - (y - gnum this.y0) / gnum this.k0)
-  let (rh1, con) : α × α :=
-    if gt c.ns 0 then (sqrt (x * x + y * y), 1) else (-sqrt (x * x + y * y), -1)
-  let theta : α := if ne rh1 0 then atan2 (con * x) (con * y) else 0
-  let lat ←
-    if ne rh1 0 || gt c.ns 0 then
-      let con := 1 / c.ns
-      let ts := pow (rh1 / (aS this * c.f0)) con
-      phi2z c.e ts
-    else pure (-halfPi)
-  pure (adjust_lon (theta / c.ns + gnum this.long0), lat)
+
+/-- inverse closure of `LCC` (regenerated) -/
+def lccInv (this : SR α) (c : Consts α) (x y : α) : Except String (α × α) :=
+  LCC_inverse (E := c.e) (F0 := c.f0) (NS := c.ns) (RH := c.rh) (this_A := aS this) (this_K0 := gnum this.k0)
+    (this_Long0 := gnum this.long0) (this_X0 := gnum this.x0) (this_Y0 := gnum this.y0) x y
+
 
 /-- `AEA` (the error is set but the constants are still computed; `Transformers` returns the error) -/
 def aeaInit (this : SR α) : Except String (SR α × Consts α) :=
@@ -523,39 +471,17 @@ def aeaInit (this : SR α) : Except String (SR α × Consts α) :=
     let rh := aS this * sqrt (c - ns0 * qs0) / ns0
     .ok (this, { (Consts.nanC : Consts α) with e := e3, ns := ns0, c := c, rh := rh })
 
+/-- forward closure of `AEA` (regenerated) -/
 def aeaFwd (this : SR α) (c : Consts α) (lon lat : α) : Except String (α × α) :=
-  let sin_phi := sin lat
-  let qs := qsfnz c.e sin_phi
-  let rh1 := aS this * sqrt (c.c - c.ns * qs) / c.ns
-  let theta := c.ns * adjust_lon (lon - gnum this.long0)
-  .ok (rh1 * sin theta + gnum this.x0, c.rh - rh1 * cos theta + gnum this.y0)
+  AEA_forward (c := c.c) (e3 := c.e) (ns0 := c.ns) (rh := c.rh) (this_A := aS this) (this_Long0 := gnum this.long0)
+    (this_X0 := gnum this.x0) (this_Y0 := gnum this.y0) lon lat
 
-def aeaPhi1zLoop (eccent qs eccnts : α) : Nat → α → Except String α
-  | 0, _ => .error "proj.aeaPhi1z: didn't converge"
-  | n+1, phi =>
-    let sinphi := sin phi
-    let cosphi := cos phi
-    let con := eccent * sinphi
-    let com := 1 - con * con
-    let dphi := 0.5 * com * com / cosphi * (qs / (1 - eccnts) - sinphi / com + 0.5 / eccent * log ((1 - con) / (1 + con)))
-    let phi := phi + dphi
-    if le (abs dphi) 1e-7 then .ok phi else aeaPhi1zLoop eccent qs eccnts n phi
 
-def aeaPhi1z (eccent qs : α) : Except String α :=
-  let phi := asinz (0.5 * qs)
-  if lt eccent c_epsln then .ok phi else aeaPhi1zLoop eccent qs (eccent * eccent) 25 phi
+/-- inverse closure of `AEA` (regenerated; `aeaPhi1z` is `Gen.Go.aeaPhi1z`) -/
+def aeaInv (this : SR α) (c : Consts α) (x y : α) : Except String (α × α) :=
+  AEA_inverse (c := c.c) (e3 := c.e) (ns0 := c.ns) (rh := c.rh) (this_A := aS this) (this_Long0 := gnum this.long0)
+    (this_X0 := gnum this.x0) (this_Y0 := gnum this.y0) (this_sphere := this.sphere) x y
 
-def aeaInv (this : SR α) (c : Consts α) (x y : α) : Except String (α × α) := do
-  let x := x - gnum this.x0
-  let y := c.rh - y + gnum this.y0
-  let (rh1, con) : α × α :=
-    if ge c.ns 0 then (sqrt (x * x + y * y), 1) else (-sqrt (x * x + y * y), -1)
-  let theta : α := if ne rh1 0 then atan2 (con * x) (con * y) else 0
-  let con := rh1 * c.ns / aS this
-  let lat ←
-    if this.sphere then pure (asin ((c.c - con * con) / (2 * c.ns)))
-    else aeaPhi1z c.e ((c.c - con * con) / c.ns)
-  pure (adjust_lon (theta / c.ns + gnum this.long0), lat)
 
 /-- `EqdC` (writes `Es`, `E`) -/
 def eqdcInit (this : SR α) : Except String (SR α × Consts α) :=
@@ -590,25 +516,17 @@ def eqdcInit (this : SR α) : Except String (SR α × Consts α) :=
     let rh := aS this * (g - ml0)
     .ok (this, { (Consts.nanC : Consts α) with e := e, e0 := e0, e1 := e1, e2 := e2, e3 := e3, ns := ns, g := g, ml0 := ml0, rh := rh })
 
+/-- forward closure of `EqdC` (regenerated) -/
 def eqdcFwd (this : SR α) (c : Consts α) (lon lat : α) : Except String (α × α) :=
-  let rh1 : α :=
-    if this.sphere then aS this * (c.g - lat)
-    else aS this * (c.g - mlfn c.e0 c.e1 c.e2 c.e3 lat)
-  let theta := c.ns * adjust_lon (lon - gnum this.long0)
-  .ok (gnum this.x0 + rh1 * sin theta, gnum this.y0 + c.rh - rh1 * cos theta)
+  EqdC_forward (e0 := c.e0) (e1 := c.e1) (e2 := c.e2) (e3 := c.e3) (g := c.g) (ns := c.ns) (rh := c.rh) (this_A := aS this)
+    (this_Long0 := gnum this.long0) (this_X0 := gnum this.x0) (this_Y0 := gnum this.y0) (this_sphere := this.sphere) lon lat
 
-def eqdcInv (this : SR α) (c : Consts α) (x y : α) : Except String (α × α) := do
-  let x := x - gnum this.x0
-  let y := c.rh - y + gnum this.y0
-  let (rh1, con) : α × α :=
-    if ge c.ns 0 then (sqrt (x * x + y * y), 1) else (-sqrt (x * x + y * y), -1)
-  let theta : α := if ne rh1 0 then atan2 (con * x) (con * y) else 0
-  if this.sphere then
-    pure (adjust_lon (gnum this.long0 + theta / c.ns), adjust_lat (c.g - rh1 / aS this))
-  else
-    let ml := c.g - rh1 / aS this
-    let lat ← imlfn ml c.e0 c.e1 c.e2 c.e3
-    pure (adjust_lon (gnum this.long0 + theta / c.ns), lat)
+
+/-- inverse closure of `EqdC` (regenerated) -/
+def eqdcInv (this : SR α) (c : Consts α) (x y : α) : Except String (α × α) :=
+  EqdC_inverse (e0 := c.e0) (e1 := c.e1) (e2 := c.e2) (e3 := c.e3) (g := c.g) (ns := c.ns) (rh := c.rh) (this_A := aS this)
+    (this_Long0 := gnum this.long0) (this_X0 := gnum this.x0) (this_Y0 := gnum this.y0) (this_sphere := this.sphere) x y
+
 
 /-- `TMerc` -/
 def tmercInit (this : SR α) : SR α × Consts α :=
@@ -618,30 +536,12 @@ def tmercInit (this : SR α) : SR α × Consts α :=
   let e3 := e3fn this.es
   (this, { (Consts.nanC : Consts α) with e0 := e0, e1 := e1, e2 := e2, e3 := e3, ml0 := aS this * mlfn e0 e1 e2 e3 (gnum this.lat0) })
 
+/-- forward closure of `TMerc` (regenerated) -/
 def tmercFwd (this : SR α) (c : Consts α) (lon lat : α) : Except String (α × α) :=
-  let delta_lon := adjust_lon (lon - gnum this.long0)
-  let sin_phi := sin lat
-  let cos_phi := cos lat
-  let k0 := gnum this.k0
-  if this.sphere then
-    let b := cos_phi * sin delta_lon
-    if lt (abs (abs b - 1)) 0.0000000001 then .error "in proj.TMerc forward: b == 0"
-    else
-      let x := 0.5 * aS this * k0 * log ((1 + b) / (1 - b))
-      let con := atan2 (abs sin_phi) (cos_phi * cos delta_lon)
-      let con := if lt lat 0 then -con else con
-      .ok (x, aS this * k0 * (con - gnum this.lat0))
-  else
-    let al := cos_phi * delta_lon
-    let als := pow al 2
-    let cc := this.ep2 * pow cos_phi 2
-    let tq := tan lat
-    let t := pow tq 2
-    let con := 1 - this.es * pow sin_phi 2
-    let n := aS this / sqrt con
-    let ml := aS this * mlfn c.e0 c.e1 c.e2 c.e3 lat
-    .ok (k0 * n * al * (1 + als / 6 * (1 - t + cc + als / 20 * (5 - 18 * t + pow t 2 + 72 * cc - 58 * this.ep2))) + gnum this.x0,
-         k0 * (ml - c.ml0 + n * tq * (als * (0.5 + als / 24 * (5 - t + 9 * cc + 4 * pow cc 2 + als / 30 * (61 - 58 * t + pow t 2 + 600 * cc - 330 * this.ep2))))) + gnum this.y0)
+  TMerc_forward (e0 := c.e0) (e1 := c.e1) (e2 := c.e2) (e3 := c.e3) (ml0 := c.ml0) (this_A := aS this) (this_Ep2 := this.ep2)
+    (this_Es := this.es) (this_K0 := gnum this.k0) (this_Lat0 := gnum this.lat0) (this_Long0 := gnum this.long0)
+    (this_X0 := gnum this.x0) (this_Y0 := gnum this.y0) (this_sphere := this.sphere) lon lat
+
 
 /-- the `for { ...; if |delta_phi| <= epsln {break}; if i >= max_iter {error}; i++ }` loop -/
 def tmercPhiLoop (con e0 e1 e2 e3 : α) : Nat → α → Except String α
@@ -727,18 +627,11 @@ def krovakInit (this : SR α) : SR α × Consts α :=
   let Ad := S90 - Uq
   (this, { (Consts.nanC : Consts α) with alfa := Alfa, kk := K, n := N, ro0 := Ro0, ad := Ad })
 
+/-- forward closure of `Krovak` (regenerated) -/
 def krovakFwd (this : SR α) (c : Consts α) (lon lat : α) : Except String (α × α) :=
-  let delta_lon := adjust_lon (lon - gnum this.long0)
-  let gfi := pow ((1 + this.e * sin lat) / (1 - this.e * sin lat)) (c.alfa * this.e / 2)
-  let u := 2 * (atan (c.kk * pow (tan (lat / 2 + S45)) c.alfa / gfi) - S45)
-  let deltav := -delta_lon * c.alfa
-  let s := asin (cos c.ad * sin u + sin c.ad * cos u * cos deltav)
-  let d := asin (cos u * sin deltav / cos s)
-  let eps := c.n * d
-  let ro := c.ro0 * pow (tan (S0 / 2 + S45)) c.n / pow (tan (s / 2 + S45)) c.n
-  let y := ro * cos eps / 1
-  let x := ro * sin eps / 1
-  if !this.czech then .ok (x * (-1), y * (-1)) else .ok (x, y)
+  Krovak_forward (Ad := c.ad) (Alfa := c.alfa) (K := c.kk) (N := c.n) (Ro0 := c.ro0) (this_E := this.e)
+    (this_Long0 := gnum this.long0) (this_Czech := this.czech) lon lat
+
 
 /-- the `for { if !(ok == 0 && iter < 15) {break}; ...; iter++ }` loop: result latitude and `iter` reached 15? -/
 def krovakIter (this : SR α) (c : Consts α) (u : α) : Nat → α → α → α × Bool
